@@ -5,6 +5,7 @@ go 1.24.0
 require (
 	github.com/google/gopacket v1.1.19
 	github.com/omec-project/upf-epc v0.0.0
+	github.com/prometheus/client_golang v1.11.1
 	github.com/wmnsk/go-pfcp v0.0.24
 	go.uber.org/zap v1.27.0
 	google.golang.org/grpc v1.71.0
@@ -21,7 +22,6 @@ require (
 	github.com/libp2p/go-reuseport v0.1.0 // indirect
 	github.com/matttproud/golang_protobuf_extensions v1.0.4 // indirect
 	github.com/p4lang/p4runtime v1.3.0 // indirect
-	github.com/prometheus/client_golang v1.11.1 // indirect
 	github.com/prometheus/client_model v0.2.0 // indirect
 	github.com/prometheus/common v0.26.0 // indirect
 	github.com/prometheus/procfs v0.6.0 // indirect
